@@ -2,7 +2,7 @@
 //! pairwise set algebra against BTreeSet algebra.
 
 use crate::base::*;
-use crate::exec::{abbreviate, check_len, parse_debug_set};
+use crate::exec::{abbreviate, check_len, parse_debug_set, safe_len};
 use crate::mon::*;
 use crate::ops::*;
 use crate::run::*;
@@ -282,7 +282,7 @@ impl<T: El> SetMon<T> {
                 let mut it = self.set.drain();
                 let mut n = 0usize;
                 loop {
-                    check_len("set drain", it.len(), it.size_hint(), total - n)?;
+                    check_len("set drain", safe_len(&it), it.size_hint(), total - n)?;
                     if n as u64 >= op.n {
                         break;
                     }
@@ -372,7 +372,7 @@ impl<T: El> SetMon<T> {
                 let mut n = 0;
                 let mut got = Vec::new();
                 loop {
-                    check_len("set iter", it.len(), it.size_hint(), total - n)?;
+                    check_len("set iter", safe_len(&it), it.size_hint(), total - n)?;
                     match it.next() {
                         None => break,
                         Some(t) => {
@@ -410,7 +410,7 @@ impl<T: El> SetMon<T> {
                 let mut n = 0usize;
                 let mut seen = BTreeSet::new();
                 loop {
-                    check_len("set into_iter", it.len(), it.size_hint(), total - n)?;
+                    check_len("set into_iter", safe_len(&it), it.size_hint(), total - n)?;
                     if n as u64 >= op.n {
                         break;
                     }
